@@ -1,6 +1,6 @@
 #!/usr/bin/env python3
 """Confirm a seeded change independently and store it under /verif/seeded/<name>/:
-   seedconfirm.py <seed_out dir> <prop> <n>
+   seedconfirm.py <seed_out dir> <prop> <n> [<name under seeded/>]
    - the existing test-suite passes with the change (scratch worktree of /repo)
    - the demonstration fails with the change and passes without it
 Writes patch.diff, demo.py, notes.txt, meta.json."""
@@ -24,6 +24,7 @@ def run(cmd, cwd, env=None, timeout=900):
 
 def main():
     src, prop, n = sys.argv[1], sys.argv[2], sys.argv[3]
+    name = sys.argv[4] if len(sys.argv) > 4 else "%s-%s" % (prop, n)  # seeded/<name>
     patch = os.path.join(src, "change_%s.diff" % n)
     demo = os.path.join(src, "demo_%s.py" % n)
     notes = os.path.join(src, "notes_%s.txt" % n)
@@ -32,7 +33,7 @@ def main():
     subprocess.check_call(["git", "-C", "/repo", "worktree", "add", "-q", wt, "HEAD"])
     env = dict(os.environ, PYTHONPATH=wt, GAFTOOLS_VERIF="0")
     env.pop("GAFTOOLS_VERIF")
-    meta = {"property": prop, "seed": "%s-%s" % (prop, n)}
+    meta = {"property": prop, "seed": name}
     try:
         shutil.copy(demo, os.path.join(wt, "demo_seed.py"))
         rc0, out0 = run(["/venv/bin/python", "demo_seed.py"], wt, env)
@@ -49,14 +50,14 @@ def main():
     meta["confirmed"] = ok
     print(prop, n, "confirmed" if ok else "NOT CONFIRMED", meta["demo_without_change"]["rc"], meta["tests_with_change"]["rc"], meta["demo_with_change"]["rc"])
     if ok:
-        d = os.path.join(ROOT, "seeded", "%s-%s" % (prop, n))
+        d = os.path.join(ROOT, "seeded", name)
         os.makedirs(d, exist_ok=True)
         shutil.copy(patch, os.path.join(d, "patch.diff"))
         shutil.copy(demo, os.path.join(d, "demo.py"))
         meta["needs_to_manifest"] = open(notes).read().strip() if os.path.exists(notes) else ""
         meta["what_i_ran"] = ["git worktree add <scratch> HEAD; git apply patch.diff", "PYTHONPATH=<scratch> /venv/bin/python -m pytest -q -p no:cacheprovider -x  (54 passed)",
                               "PYTHONPATH=<scratch> /venv/bin/python demo.py  with the change (non-zero) and without (0)",
-                              "python3-vt checks/seedtest.py seeded/%s-%s/patch.diff %s" % (prop, n, prop)]
+                              "python3-vt checks/seedtest.py seeded/%s/patch.diff %s" % (name, prop)]
         json.dump(meta, open(os.path.join(d, "meta.json"), "w"), indent=1)
 
 
